@@ -198,6 +198,22 @@ pub fn no_panic<T>(sig: &str, f: impl FnOnce() -> T) -> Result<T, Fail> {
     }
 }
 
+/// drops `t` while the current thread is unwinding (`std::thread::panicking()` is true inside the
+/// drop); the unwinding is started without running the panic hook and caught here
+pub fn drop_while_unwinding<T>(t: T) {
+    struct G<T>(Option<T>);
+    impl<T> Drop for G<T> {
+        fn drop(&mut self) {
+            drop(self.0.take());
+        }
+    }
+    let g = std::panic::AssertUnwindSafe(G(Some(t)));
+    let _ = std::panic::catch_unwind(move || {
+        let _g = g;
+        std::panic::resume_unwind(Box::new("harness: unwinding on purpose"));
+    });
+}
+
 pub struct SubCfg {
     pub name: &'static str,
     pub rule: &'static str,
